@@ -105,7 +105,11 @@ def run(ctx, R, tier):
     from ..report import Rules
     from . import c14
     R14 = Rules("C14")
-    c14.run(ctx, R14, tier)
+    try:
+        c14.run(ctx, R14, tier)
+    except AnalysisError as _shared_x:
+        # the other property's own anchors are gone on this tree: its check reports that; what it produced before is still shared
+        R.note("obligations shared from C14 are incomplete on this tree: %s" % _shared_x)
     for o in R14.obs:
         if o.rule == "C14-R2":
             R.add("C15-R3", o.key.split("|", 1)[1], o.desc + " (lookup and count take no lock: a second commit inside one operation would be visible to them as a state no "
